@@ -1547,6 +1547,25 @@ fn judge(
                             is_kf1 = true;
                         }
                     }
+                    // ... and the PINNED tree fails on this very input in this very way: the frozen copy of the
+                    // pinned clean-up + Replace merging, fed the raw calls of the same algorithm run, yields
+                    // exactly the ops that were observed (a clean-up that deviates from the pinned one - even
+                    // through the same swap arms - is not the listed finding)
+                    if is_kf1 && entry != 5 && entry != 6 && entry != 7 && entry != 8 {
+                        let raw = capture_once(alg, a, or.clone(), b, nr.clone(), 5, clock, far_deadline());
+                        match raw.ok().and_then(|r| crate::pinned::pinned_capture_pipeline(&r.ops, &eq)) {
+                            Some(pinned) if pinned == *ops => out.count("kf1_matches_confirmed_by_the_frozen_pinned_cleanup"),
+                            Some(pinned) => {
+                                is_kf1 = false;
+                                out.count("kf1_candidates_rejected_by_the_frozen_pinned_cleanup");
+                                out.violation(
+                                    "ops.deviates_from_pinned_cleanup",
+                                    format!("stale carried index behind a Delete/Insert swap, but NOT the listed known finding: the pinned clean-up turns the raw calls of this run into {} while this tree captured {} | {}", fmt_ops(&pinned), fmt_ops(ops), c()),
+                                );
+                            }
+                            None => {}
+                        }
+                    }
                 }
                 if is_kf1 {
                     out.known_finding(KF1, || format!("{} | {} | ops={}", v.carried[0].1, c(), fmt_ops(ops)));
